@@ -758,3 +758,42 @@ Proof.
   destruct ((nth 0 fn 0 =? 76) || (nth 0 fn 0 =? 0)); [discriminate|].
   inversion Fa as [Fa']. rewrite <- Bsame in Fa'. rewrite (K _ _ _ Fa'). reflexivity.
 Qed.
+
+(* ------------------------------------------------------------------ non-vacuity: a concrete post and a concrete sequence meet the hypotheses *)
+Definition ex_users : list user :=
+  [mkUser [83;89;83;79;80;0;0;0;0;0;0;0;0] [175;171;0] true 0;
+   mkUser [116;101;115;116;49;0;0;0;0;0;0;0;0] [116;101;115;116;49;0] false 7;
+   mkUser [67;111;100;105;110;103;77;97;110;0;0;0;0] [181;123;0] false 0].
+Definition ex_boards : list board :=
+  [mkBoard [87;104;111;65;109;73;0] [1] (repeat 7 256) [([46;68;73;82;46;98;111;116;116;111;109], [1;2;3])] 2;
+   mkBoard [69;100;105;116;69;120;112;0] [] [] [] 0].
+Definition ex_state : state := mkState ex_users ex_boards.
+(* a plain user, no class, a title shorter than the announcement tag, a body with trailing blanks, a NUL,
+   a cursor-movement escape and an empty last line *)
+Definition ex_req1 : req :=
+  mkReq 2 0 [] [104;105] [[97;32;32]; [98;0;99]; [27;91;49;59;50;72;120]; []] [49;50;55;46;48;46;48;46;49]
+        1790800000 1790800000 1790800001 1790800000 [542; 1774; 2477; 447].
+Definition ex_req2 : req :=
+  mkReq 1 1 [116;101;115;116] [91;164;189;167;105;93;32;110;101;119;115] [[120]] [49;50;55;46;48;46;48;46;49]
+        1790800001 1790800001 1790800001 1790800001 [542; 542; 9; 10].
+Definition ex_req3 : req :=
+  mkReq 0 0 [] [] [] [49;50;55;46;48;46;48;46;49]
+        1790800000 1790800000 1790800000 1790800000 [542; 1774; 1774; 5].
+
+Example ex_in_range : in_range ex_req1 /\ in_range ex_req2 /\ in_range ex_req3.
+Proof.
+  unfold in_range, ex_req1, ex_req2, ex_req3, lenZ; cbn [q_nowA q_nowB q_rnds length].
+  repeat split; try lia; repeat constructor; lia.
+Qed.
+
+Example ex_post_ok : is_ok (post ex_state ex_req1) = true /\ req_ok ex_state ex_req1 = true.
+Proof. vm_compute. split; reflexivity. Qed.
+
+(* second and third post collide with names taken by the earlier ones: Stampfile's loop is exercised *)
+Example ex_seq_ok : is_ok (post_seq ex_state [ex_req1; ex_req2; ex_req3; ex_req1]) = true /\
+                    forallb (req_ok ex_state) [ex_req1; ex_req2; ex_req3; ex_req1] = true /\
+                    dir_ok (brd ex_state 0) /\ dir_ok (brd ex_state 1).
+Proof. vm_compute. repeat split; reflexivity. Qed.
+
+Example ex_defuse : defuse false [27;91;49;59;50;72;120; 27;91;51;49;109; 27;65] = [27;91;49;59;50;115;120; 27;91;51;49;109; 27;115].
+Proof. vm_compute. reflexivity. Qed.
